@@ -101,6 +101,7 @@ class Engine:
         self.by_short = {}
         self.closures = {}
         self.inline_filter = None
+        self.run_drop_impls = set()   # type base names whose crate `Drop` impl is executed at drop terminators
         self._stmt_cache = {}
         self.vars = {}           # name -> z3 const (environment / lazily initialised inputs)
         self._index_sources()
@@ -845,8 +846,20 @@ class Engine:
             e = match_paren(t, 4)
             pl = t[5:e]
             c = self.place_cell(m, fr, pl)
-            self.on_drop(m, fr, pl, c)
             mt = re.search(r"return: bb(\d+)", t)
+            ty = c.ty or fr.fn.locals.get(parse_place(pl).local, "?")
+            bn = _base_name(ty)
+            if bn in self.run_drop_impls and c.val is not None:
+                cands = [f for f in self.by_short.get("drop", []) if f.self_ty == bn and f.trait == "Drop"]
+                if len(cands) == 1:
+                    nf = Frame(cands[0])
+                    nf.locals[cands[0].params[0][0]] = Cell(Ref(c), None, "dropped")
+                    nf.dest = None
+                    nf.ret_bb = int(mt.group(1))
+                    m.frames.append(nf)
+                    m.event("drop_impl", bn)
+                    return
+            self.on_drop(m, fr, pl, c)
             return self.goto(m, fr, int(mt.group(1)))
         if t.startswith("assert("):
             e = match_paren(t, 6)
@@ -988,6 +1001,13 @@ class Engine:
                 pre = segs[:-1]
                 if not pre or mod[-len(pre):] == pre or (pre and mod and mod[-1] == pre[-1]):
                     out.append(f)
+        if not out and self_ty is not None:
+            # impls generated by macro_rules (the impl header names `$typename`): go by the receiver / return type
+            o2 = [f for f in cands if f.params and _base_name(f.params[0][1]) == self_ty and len(f.params) == len(argv)]
+            if not o2:
+                o2 = [f for f in cands if _base_name(f.ret) == self_ty and len(f.params) == len(argv) and f.self_ty and f.self_ty.startswith("$")]
+            if len(o2) == 1:
+                return o2[0]
         if len(out) == 1:
             return out[0]
         if len(out) > 1 and trait:
